@@ -234,8 +234,20 @@ async fn child(seed: u64, dir: std::path::PathBuf, fp: String, k: u64, action: F
             }
         });
         let results = futures::future::join_all(futs).await;
-        // an acknowledged write is visible to the next query
+        // an acknowledged write is visible to the next query; a room mutation reported failed must not have changed the
+        // room the instance decides with
         for (op, res) in results {
+            if let (Kind::RoomEdit, Err(e)) = (&op.kind, &res) {
+                if e != "SKIP" {
+                    let key = Identity::new(seed, 100 + op.i as u64).vkey;
+                    if let Some(r) = peer.room(room_id).await {
+                        let present = r.authorisations.values().any(|a| a.users.contains_key(&key));
+                        if present {
+                            log.lock().unwrap().line(&format!("ROOM-LEAK {} the user added by a room mutation reported failed is in the room held in memory", op.i));
+                        }
+                    }
+                }
+            }
             if res.is_err() {
                 continue;
             }
@@ -529,6 +541,7 @@ fn run_case<'a>(ctx: &'a Ctx, case: u64, acc: &'a mut Acc) -> CaseFut<'a> {
         let mut done = false;
         let mut fired = 0u64;
         let mut ryw: Vec<String> = Vec::new();
+        let mut room_leaks: Vec<String> = Vec::new();
         for l in ack.lines() {
             let mut it = l.splitn(3, ' ');
             let head = it.next().unwrap_or("");
@@ -557,6 +570,7 @@ fn run_case<'a>(ctx: &'a Ctx, case: u64, acc: &'a mut Acc) -> CaseFut<'a> {
                     }
                 }
                 "RYW-MISS" => ryw.push(l.to_string()),
+                "ROOM-LEAK" => room_leaks.push(l.to_string()),
                 _ => {}
             }
         }
@@ -681,6 +695,10 @@ fn run_case<'a>(ctx: &'a Ctx, case: u64, acc: &'a mut Acc) -> CaseFut<'a> {
                 any_violation = true;
                 acc.violation("C13/effect-of-a-request-never-started", detail);
             }
+        }
+        for l in &room_leaks {
+            any_violation = true;
+            acc.violation(format!("C13/request-reported-failed-has-an-effect-on-the-running-instance/room-mutation/{}-{}", fp, action), json!({"line": l, "run": ctxj}));
         }
         for l in &ryw {
             any_violation = true;
